@@ -7,6 +7,7 @@ import (
 	"os"
 	"path/filepath"
 	"sort"
+	"strconv"
 	"strings"
 	"sync"
 	"sync/atomic"
@@ -47,8 +48,9 @@ type Op struct {
 	ConnGen int
 	Lost    bool // connection ended before a reply arrived
 	// wasBlocked: the command was seen sitting in its blocking select
-	wasBlocked bool
-	BlockedAt  time.Duration
+	wasBlocked  bool
+	BlockedAt   time.Duration
+	BlockedStep int64
 }
 
 type Violation struct {
@@ -152,6 +154,7 @@ type World struct {
 	stagesMu   sync.Mutex
 	inflight   int
 	turnLog    []int
+	res        *RunResult
 	orderPos   int
 	cands      [maxTasks]cand
 	blocked    [maxTasks]bool
@@ -209,9 +212,16 @@ type extraReporter interface{ Extra() map[string]int }
 var signalOnce sync.Once
 
 // RunPlan executes one simulated run inside a synctest bubble.
+// OnPoisoned, when set, is called from inside the bubble with the finished
+// result of a run whose emulator goroutines are wedged (spinning forever or
+// deadlocked on real mutexes). Such a bubble can never be left: the callback is
+// expected to record the result and end the process.
+var OnPoisoned func(res *RunResult)
+
 func RunPlan(t *testing.T, plan *Plan, tape *Tape, mk func(*Plan) Checker, keepLog bool) (res *RunResult) {
 	w := &World{t: t, plan: plan, tape: tape, keepLog: keepLog, barrier: map[int64]map[int]bool{}}
 	res = &RunResult{Plan: plan}
+	w.res = res
 	dir, err := os.MkdirTemp("", "vsim")
 	if err != nil {
 		panic(err)
@@ -235,7 +245,13 @@ func RunPlan(t *testing.T, plan *Plan, tape *Tape, mk func(*Plan) Checker, keepL
 		})
 	}()
 	redisemu.SimInstall(nil)
-	res.Tape = append([]uint32(nil), tape.used()...)
+	w.fillResult()
+	return
+}
+
+func (w *World) fillResult() {
+	res := w.res
+	res.Tape = append([]uint32(nil), w.tape.used()...)
 	res.Viol = w.viol
 	res.TurnLog = w.turnLog
 	res.History = w.history
@@ -248,7 +264,21 @@ func RunPlan(t *testing.T, plan *Plan, tape *Tape, mk func(*Plan) Checker, keepL
 	if res.Extra == nil {
 		res.Extra = map[string]int{}
 	}
-	return
+}
+
+// poisoned: some emulator goroutine is in a retry loop it cannot leave, or
+// tasks wait for mutexes nobody will release.
+func (w *World) poisoned() bool {
+	if w.viol != nil && (w.viol.Oracle == "livelock" || w.viol.Oracle == "deadlock") {
+		return true
+	}
+	n, _ := w.sched.snapshot(&w.cands, &w.blocked)
+	for i := 0; i < n; i++ {
+		if w.cands[i].spins > 8 {
+			return true
+		}
+	}
+	return false
 }
 
 func (w *World) run(mk func(*Plan) Checker) {
@@ -318,6 +348,17 @@ func (w *World) run(mk func(*Plan) Checker) {
 	w.collectProbes()
 	w.stats.Steps = w.step
 	w.stats.SimTime = w.Now()
+	if w.poisoned() {
+		if w.viol == nil {
+			w.viol = &Violation{Oracle: "livelock", Fp: "livelock:end", Step: w.step,
+				Msg: "the run ended (" + w.stats.EndReason + ") with an emulator goroutine still retrying on a client's capture word after every back-off sleep\n" + historyText(w)}
+		}
+		w.stats.EndReason = "poisoned:" + w.stats.EndReason
+		if OnPoisoned != nil {
+			w.fillResult()
+			OnPoisoned(w.res)
+		}
+	}
 	w.teardown()
 }
 
@@ -445,6 +486,7 @@ func (w *World) loop() {
 				if w.isBlockedInSelect(c.idx) {
 					c.pending[0].wasBlocked = true
 					c.pending[0].BlockedAt = w.Now()
+					c.pending[0].BlockedStep = w.step
 				}
 			}
 		}
@@ -457,6 +499,16 @@ func (w *World) loop() {
 		}
 		if w.step >= w.maxSteps() {
 			w.stats.EndReason = "step-budget"
+			// a run that exhausts its budget while some goroutine does nothing
+			// but back off and retry is a livelock, not a long run
+			n, _ := w.sched.snapshot(&w.cands, &w.blocked)
+			for i := 0; i < n; i++ {
+				if w.cands[i].spins > 50 {
+					w.viol = &Violation{Oracle: "livelock", Fp: "livelock:" + w.cands[i].kind, Step: w.step,
+						Msg: fmt.Sprintf("step budget exhausted while task %s has been spinning on a client's capture word for %d consecutive back-off sleeps", candName(&w.cands[i]), w.cands[i].spins)}
+					w.stats.EndReason = "livelock"
+				}
+			}
 			return
 		}
 		evs = evs[:0]
@@ -530,7 +582,7 @@ func (w *World) loop() {
 			name := candName(&e.c)
 			w.lastRan = name
 			w.logf("T %s @%s", name, e.c.site)
-			if e.c.site == "cs.spin" && e.c.spins > 20000 {
+			if e.c.site == "cs.spin" && e.c.spins > 400 {
 				w.viol = &Violation{Oracle: "livelock", Fp: "livelock:" + e.c.kind, Step: w.step,
 					Msg: fmt.Sprintf("task %s has only been spinning on the capture word for %d back-off sleeps", name, e.c.spins)}
 				w.stats.EndReason = "livelock"
@@ -771,7 +823,18 @@ func (w *World) clientStep(c *simClient) {
 		if len(it.Raw) > 0 {
 			data = []byte(it.Raw)
 		} else {
-			data = EncodeCmd(it.Args)
+			args := it.Args
+			for i, a := range args {
+				if strings.HasPrefix(string(a), "$id:") {
+					// the emulator's id of another scripted connection
+					n, _ := strconv.Atoi(string(a[4:]))
+					if args2 := append([]B(nil), args...); n >= 0 && n < len(w.clients) {
+						args2[i] = B(strconv.FormatInt(w.emuClientId(w.clients[n]), 10))
+						args = args2
+					}
+				}
+			}
+			data = EncodeCmd(args)
 		}
 		op := &Op{Client: c.idx, Idx: c.pos, Item: it, Invoke: w.step, Return: -1, TInvoke: w.Now(), ConnGen: c.connGen}
 		w.history = append(w.history, op)
@@ -804,6 +867,13 @@ func (w *World) clientStep(c *simClient) {
 			if len(c.pending) > 0 {
 				w.fault("client-close-inflight")
 			}
+			// the application is gone: whatever the server still writes is never read
+			for _, op := range c.pending {
+				op.Lost = true
+				w.logf("R c%d #%d lost (client closed)", c.idx, op.Idx)
+			}
+			c.pending = nil
+			c.sendbuf = nil
 		}
 		w.logf("C c%d %s", c.idx, it.Op)
 		c.pos++
@@ -970,6 +1040,9 @@ func (w *World) harvest() {
 			continue
 		}
 		tmp = c.conn.cliTake(tmp[:0])
+		if c.cliClosed {
+			tmp = tmp[:0]
+		}
 		for _, ch := range tmp {
 			c.recv = append(c.recv, ch.data...)
 			c.bounds = append(c.bounds, bound{end: len(c.recv), step: ch.step})
@@ -1090,7 +1163,8 @@ func (w *World) teardown() {
 	}
 	for _, inst := range w.emus {
 		if inst != nil {
-			inst.eng.RequestTermination()
+			eng := inst.eng
+			go eng.RequestTermination()
 		}
 	}
 	redisemu.SimForceUnblockAll()
